@@ -80,7 +80,7 @@ const BODY: &[&str] = &[
     "\tTAB inside",
     "a\\*b (glob)",
 ];
-const CMDS: &[&str] = &["echo hello", "cat <<EOF", "printf 'a\\nb'", "true", "echo '  $ x'", "ls  ", "echo \"# no comment\""];
+const CMDS: &[&str] = &["echo hello", "cat <<EOF", "printf 'a\\nb'", "true", "echo '  $ x'", "ls  ", "echo \"# no comment\"", ""];
 const CONT: &[&str] = &["arg", "EOF", "  indented", "| sort", "> nested angle"];
 const COMMENTS: &[&str] = &["# a comment", "#", "#   $ not a command", "#!x"];
 
